@@ -20,6 +20,13 @@ the thorough tier, iterative preemption bounding otherwise. Monitors on every ex
        flagged (they show that the schedules do contain the conflicts);
  no deadlock, no non-Pony exception.
 
+Multi-transaction db_sessions (MULTI): an explicit commit() in the middle ends the transaction and every lock, the
+identity map and the values read stay. Programs: (get_for_update | query.for_update | create [+flush] | plain get) ;
+read ; [write] ; commit() ; [re-read | refetch | lock again] ; update another attribute / a function of the stale
+read ; [commit() ; update]. The monitors work per transaction (commit attribution, composition in commit order of
+the TRANSACTIONS) and the stale-read monitor spans the whole db_session: a value read before an in-session commit
+still counts for every later update of that object (a refetch either raises or leaves it valid).
+
 PostgreSQL: server behaviour is out of reach; only the UPDATE text that the real PGProvider/PGSQLBuilder
 emit on a statement-log connection is checked: its WHERE clause names every checked attribute the session
 read before the update and no attribute that is excluded from optimistic checks.
@@ -163,6 +170,11 @@ def judge(v, counters):
     out += L.mon_stale_read(v, counters)
     out += L.mon_spurious(v, counters)
     out += L.mon_unexpected(v)
+    for t in range(v.n):
+        if v.res[t].get('cls') == 'OptimisticCheckError' and any(d[0] == 'committed' for _, d in v.notes[t]):
+            counters['OptimisticCheckError_after_in_session_commit'] = counters.get('OptimisticCheckError_after_in_session_commit', 0) + 1
+            if any(d[0] in ('lock', 'new') for _, d in v.notes[t]):
+                counters['OptimisticCheckError_after_commit_on_object_locked_or_created_before'] = counters.get('OptimisticCheckError_after_commit_on_object_locked_or_created_before', 0) + 1
     return out
 
 def worker(arg):
@@ -178,6 +190,8 @@ def pg_part(ctx):
     for prog in PROGRAMS:
         if any(op[0] in ('del', 'new') for op in prog['ops']) and not any(op[0] == 'w' for op in prog['ops']): continue
         if prog in ROW3: continue          # they need the row another session creates
+        if creates_3(prog['name']) and any(op[0] == 'r' and op[2] == 'v' for op in prog['ops']): continue   # a volatile attribute
+        # is re-read from the database after a commit and the statement-log model only knows the fixture rows
         marks = []
         from pony import orm
         notes = []
@@ -255,6 +269,8 @@ def run(ctx):
         ('program pairs with more than one distinct outcome', agg['per_kind']['pair']['tuples_with_more_than_one_outcome'], 100),
         ('PostgreSQL UPDATE statements with a non-empty read set', c.get('pg_updates_with_nonempty_read_set', 0), 8),
         ('PostgreSQL UPDATE statements after an in-session commit with a non-empty read set', c.get('pg_updates_after_in_session_commit_with_read_set', 0), 8),
+        ('OptimisticCheckError after an in-session commit, object locked for update / created earlier in the db_session',
+         c.get('OptimisticCheckError_after_commit_on_object_locked_or_created_before', 0), 100),
         ('multi-transaction pairs with more than one distinct outcome', agg['per_kind']['multi']['tuples_with_more_than_one_outcome'], 60),
         ('all-points cross-check tuples', c.get('xcheck_tuples_all_points_outcomes_contained', 0), 2)])
     out = L.coverage(ctx, agg)
